@@ -498,7 +498,9 @@ def derive_relations(case, solution, rnd):
         # single-task jobs only ("relation with jobs which have multiple pickups or deliveries places are not yet supported")
         j = jobs.get(jid)
         if j is None: return True
-        if sum(len(j.get(k, [])) for k in ("pickups", "deliveries", "replacements", "services")) != 1:
+        n = sum(len(j.get(k, [])) for k in ("pickups", "deliveries", "replacements", "services"))
+        # one task, or one pickup with one delivery (listed once per task, E1207); several pickups or several deliveries are "not yet supported"
+        if not (n == 1 or (n == 2 and len(j.get("pickups", [])) == 1 and len(j.get("deliveries", [])) == 1)):
             return False
         for k in ("pickups", "deliveries", "replacements", "services"):
             for t in j.get(k, []):
@@ -526,9 +528,23 @@ def derive_relations(case, solution, rnd):
             if seq:
                 rels.append({"type": "any", "jobs": seq, "vehicleId": t["vehicleId"], "shiftIndex": t["shiftIndex"]})
             continue
-        mode = rnd.choice(["prefix", "suffix", "block"])
+        mode = rnd.choice(["prefix", "suffix", "block", "pair-block", "pair-tight"])
         k = rnd.randint(1, len(inner))
-        if mode == "prefix":
+        pairs = [x for x in set(inner) if inner.count(x) == 2]
+        if pairs and rnd.random() < 0.5:
+            mode = rnd.choice(["pair-block", "pair-block", "pair-tight"])
+        if mode == "pair-block" and pairs:
+            # a strict block that opens with the pickup of a pickup-delivery job and closes with its delivery (the id is listed per task)
+            x = rnd.choice(sorted(pairs))
+            a = inner.index(x); b = len(inner) - 1 - inner[::-1].index(x)
+            seq, kind = inner[a:b + 1], "strict"
+        elif mode == "pair-tight" and pairs:
+            # the two tasks of a pickup-delivery job locked next to each other although the tour served other jobs in between: those jobs
+            # are free again and their old places - inside the block - are closed now (fewer stops in between stay feasible: metric matrices)
+            apart = [x for x in sorted(pairs) if len(inner) - 1 - inner[::-1].index(x) - inner.index(x) > 1]
+            x = rnd.choice(apart or sorted(pairs))
+            seq, kind = [x, x], "strict"
+        elif mode == "prefix":
             seq = ["departure"] + inner[:k]
         elif mode == "suffix" and has_arrival:
             seq = inner[-k:] + ["arrival"]
